@@ -49,6 +49,10 @@ func (s *Spec) RunPass(ctx *Context, pass Pass) {
 		ctx.LexerDFAs = make(map[string]*mode.Mode, len(ctx.LexerModes))
 		for i, name := range modeNames {
 			mode := ctx.LexerModes[name].Build(ctx.Errs, ctx.FSet)
+			if mode == nil {
+				// Build has reported why (e.g. conflicting rules in two files).
+				continue
+			}
 			mode.Index = i
 			ctx.LexerDFAs[name] = mode
 		}
